@@ -30,6 +30,7 @@ func drawReadCfg(r *eng.Run, apps []int) ReadCfg {
 		if r.T.Chance(sim.LCfg, 1, 5) {
 			cfg.Bufio = []int{16, 64, 4096}[r.T.Int(sim.LSize, 3)]
 		}
+		cfg.CopyDrain = r.T.Chance(sim.LCfg, 1, 6)
 	case AppReadMessage:
 		cfg.Variant = r.T.Int(sim.LCfg, 2)
 		cfg.SeedMsgs = r.T.Bool(sim.LCfg)
@@ -45,6 +46,7 @@ func drawReadCfg(r *eng.Run, apps []int) ReadCfg {
 		}
 	case AppNextReader:
 		cfg.Extended = r.T.Chance(sim.LCfg, 1, 4)
+		cfg.CopyDrain = r.T.Chance(sim.LCfg, 1, 6)
 	case AppReadMessage, AppReadData:
 		cfg.Extended = cfg.Variant == 0 && r.T.Chance(sim.LCfg, 1, 4)
 	}
